@@ -53,7 +53,7 @@ def mutants(src, lo, hi):
     seen = set()
     for i, t in enumerate(toks):
         r = t.start[0]
-        if not (lo <= r <= hi) or r in depth_doc or t.start[0] != t.end[0]:
+        if not (lo <= r <= hi) or r > len(lines) or r in depth_doc or t.start[0] != t.end[0]:
             continue
         line = lines[r - 1]
         if line.lstrip().startswith(("import ", "from ", "@", "raise ", "logger", "warnings", "assert")):
